@@ -34,6 +34,26 @@ theorem repOK_single (k : UInt64) (s : SearchState) (h : s.rep = [k]) : RepOK s 
 
 variable {c : Int → Int} {S : P → Prop} {qf : Nat}
 
+/-- one root search from an empty repetition stack (ranked form: the root lies in `S depth`). -/
+theorem searchPosition_ok_ranked {S : Nat → P → Prop} (hc : Clamp c) (hr : Ranked G S)
+    (hinj : HashInj G (Ranked.U S)) (qfuel : Nat)
+    (hq : qf ≤ qfuel) (p : P) (depth : Nat) (s : SearchState) (v : Int) (hSp : S depth p)
+    (hT : TTSound G c (Ranked.U S) qf s.tt) (hrep : s.rep = []) (hv : Spec.V G qf depth p = some v)
+    (hs : s.stopSeen = false) (hfin : (searchPosition G qfuel p depth s).2.stopSeen = false)
+    (hdh : (searchPosition G qfuel p depth s).2.deeperHits = s.deeperHits) :
+    ∃ r, (searchPosition G qfuel p depth s).1 = some r ∧
+      ResultOK G c qf depth p NEGATIVE_INFINITY INFINITY v r ∧
+      TTSound G c (Ranked.U S) qf (searchPosition G qfuel p depth s).2.tt ∧
+      (searchPosition G qfuel p depth s).2.rep = [] := by
+  rw [searchPosition_eq] at hfin hdh ⊢
+  have hR : RepOK (pushed G p s) := repOK_single (G.hash p) _ (by simp [pushed, hrep])
+  obtain ⟨r, hr, hres, hT2⟩ := negamax_ok_ranked G hc hr hinj qfuel hq depth p 0 NEGATIVE_INFINITY INFINITY
+    (pushed G p s) v hSp hT hR hv (Int.le_refl _) (by decide) (Int.le_refl _) hs hfin hdh
+  refine ⟨r, hr, hres, hT2, ?_⟩
+  simp only
+  rw [(negamax_frame G qfuel depth p 0 NEGATIVE_INFINITY INFINITY (pushed G p s)).rep]
+  simp [pushed, hrep]
+
 /-- one root search from an empty repetition stack. -/
 theorem searchPosition_ok (hc : Clamp c) (hcl : Closed G S) (hinj : HashInj G S) (qfuel : Nat)
     (hq : qf ≤ qfuel) (p : P) (depth : Nat) (s : SearchState) (v : Int) (hSp : S p)
@@ -44,14 +64,11 @@ theorem searchPosition_ok (hc : Clamp c) (hcl : Closed G S) (hinj : HashInj G S)
       ResultOK G c qf depth p NEGATIVE_INFINITY INFINITY v r ∧
       TTSound G c S qf (searchPosition G qfuel p depth s).2.tt ∧
       (searchPosition G qfuel p depth s).2.rep = [] := by
-  rw [searchPosition_eq] at hfin hdh ⊢
-  have hR : RepOK (pushed G p s) := repOK_single (G.hash p) _ (by simp [pushed, hrep])
-  obtain ⟨r, hr, hres, hT2⟩ := negamax_ok G hc hcl hinj qfuel hq depth p 0 NEGATIVE_INFINITY INFINITY
-    (pushed G p s) v hSp hT hR hv (Int.le_refl _) (by decide) (Int.le_refl _) hs hfin hdh
-  refine ⟨r, hr, hres, hT2, ?_⟩
-  simp only
-  rw [(negamax_frame G qfuel depth p 0 NEGATIVE_INFINITY INFINITY (pushed G p s)).rep]
-  simp [pushed, hrep]
+  have h := searchPosition_ok_ranked G (S := fun _ => S) hc (Ranked.ofClosed hcl)
+    (by rw [Ranked.U_const]; exact hinj) qfuel hq p depth s v hSp (by rw [Ranked.U_const]; exact hT)
+    hrep hv hs hfin hdh
+  rw [Ranked.U_const] at h
+  exact h
 
 /-! ### the iteration loop -/
 
@@ -117,18 +134,19 @@ def RootExact (c : Int → Int) (qf lo hi : Nat) (p : P) : Prop :=
   ∀ d v, lo ≤ d → d ≤ hi → Spec.V G qf d p = some v →
     ∀ r, Contract (c v) (c r) NEGATIVE_INFINITY INFINITY → c r = c v
 
-theorem iterate_ok (hc : Clamp c) (hcl : Closed G S) (hinj : HashInj G S) (qfuel : Nat)
-    (hq : qf ≤ qfuel) (p : P) (hSp : S p) (maxDepth : Nat) :
+theorem iterate_ok_ranked {S : Nat → P → Prop} (hc : Clamp c) (hr : Ranked G S)
+    (hinj : HashInj G (Ranked.U S)) (qfuel : Nat)
+    (hq : qf ≤ qfuel) (p : P) (maxDepth : Nat) (hSp : S maxDepth p) :
     ∀ (n cur : Nat) (best : Int × Option Move) (s : SearchState),
       1 ≤ cur → cur + n = maxDepth + 1 →
       (∀ d, cur ≤ d → d ≤ maxDepth → ∃ v, Spec.V G qf d p = some v) →
       RootExact G c qf cur maxDepth p →
       (cur = maxDepth + 1 → IterOK G c qf maxDepth p best) →
-      TTSound G c S qf s.tt → s.rep = [] → s.stopSeen = false →
+      TTSound G c (Ranked.U S) qf s.tt → s.rep = [] → s.stopSeen = false →
       (iterate G qfuel p maxDepth n cur best s).2.stopSeen = false →
       (iterate G qfuel p maxDepth n cur best s).2.deeperHits = s.deeperHits →
       ∃ b, (iterate G qfuel p maxDepth n cur best s).1 = some b ∧ IterOK G c qf maxDepth p b ∧
-        TTSound G c S qf (iterate G qfuel p maxDepth n cur best s).2.tt ∧
+        TTSound G c (Ranked.U S) qf (iterate G qfuel p maxDepth n cur best s).2.tt ∧
         (iterate G qfuel p maxDepth n cur best s).2.rep = [] := by
   intro n
   induction n with
@@ -148,7 +166,7 @@ theorem iterate_ok (hc : Clamp c) (hcl : Closed G S) (hinj : HashInj G S) (qfuel
     simp only [Bool.false_eq_true, ↓reduceIte] at hfin hdh ⊢
     have hs1 : (polled s).stopSeen = false := by simp [polled, hs, hsf]
     obtain ⟨v, hv⟩ := hV cur (Nat.le_refl _) (by omega)
-    have hSP := searchPosition_ok G hc hcl hinj qfuel hq p cur (polled s) v hSp hT hrep hv hs1
+    have hSP := searchPosition_ok_ranked G hc hr hinj qfuel hq p cur (polled s) v (hr.le (by omega) hSp) hT hrep hv hs1
     have hSF := searchPosition_frame G qfuel p cur (polled s)
     have hIF := iterate_frame G qfuel p maxDepth n (cur + 1)
     rcases hsp : searchPosition G qfuel p cur (polled s) with ⟨ro, s2⟩
@@ -201,12 +219,30 @@ theorem iterate_ok (hc : Clamp c) (hcl : Closed G S) (hinj : HashInj G S) (qfuel
     apply ih (cur + 1) (r.score, r.bestMove) (cached G p cur r (polled s2)) (by omega) (by omega)
       (fun d hd hd' => hV d (by omega) hd')
       (fun d v' hd hd' => hRE d v' (by omega) hd')
-      ?_ (ttSound_store G hinj hT2 p hSp _ _ _ _ hE) hrep2
+      ?_ (ttSound_store G hinj hT2 p (Ranked.mem_U hSp) _ _ _ _ hE) hrep2
       (by simp [cached, polled, hs2.1, hsf2]) hfin (by rw [hdh]; exact hs2.2.symm)
     intro hcm
     have : cur = maxDepth := by omega
     subst this
     exact ⟨fun v' hv' => by rw [hv] at hv'; cases hv'; exact hexact, hmove, hpv⟩
+
+theorem iterate_ok (hc : Clamp c) (hcl : Closed G S) (hinj : HashInj G S) (qfuel : Nat)
+    (hq : qf ≤ qfuel) (p : P) (hSp : S p) (maxDepth : Nat) :
+    ∀ (n cur : Nat) (best : Int × Option Move) (s : SearchState),
+      1 ≤ cur → cur + n = maxDepth + 1 →
+      (∀ d, cur ≤ d → d ≤ maxDepth → ∃ v, Spec.V G qf d p = some v) →
+      RootExact G c qf cur maxDepth p →
+      (cur = maxDepth + 1 → IterOK G c qf maxDepth p best) →
+      TTSound G c S qf s.tt → s.rep = [] → s.stopSeen = false →
+      (iterate G qfuel p maxDepth n cur best s).2.stopSeen = false →
+      (iterate G qfuel p maxDepth n cur best s).2.deeperHits = s.deeperHits →
+      ∃ b, (iterate G qfuel p maxDepth n cur best s).1 = some b ∧ IterOK G c qf maxDepth p b ∧
+        TTSound G c S qf (iterate G qfuel p maxDepth n cur best s).2.tt ∧
+        (iterate G qfuel p maxDepth n cur best s).2.rep = [] := by
+  have h := iterate_ok_ranked G (S := fun _ => S) hc (Ranked.ofClosed hcl)
+    (by rw [Ranked.U_const]; exact hinj) qfuel hq p maxDepth hSp
+  rw [Ranked.U_const] at h
+  exact h
 
 /-! ### `find_best_move` -/
 
@@ -229,17 +265,18 @@ theorem findBestMove_snd (qfuel : Nat) (p : P) (maxDepth : Nat) (limit : Limit) 
   rcases iterate G qfuel p maxDepth maxDepth 1 (NEGATIVE_INFINITY, none) (started limit s) with ⟨ro, s2⟩
   rcases ro with _ | ⟨sc, _ | mv⟩ <;> rfl
 
-theorem findBestMove_ok (hc : Clamp c) (hcl : Closed G S) (hinj : HashInj G S) (qfuel : Nat)
-    (hq : qf ≤ qfuel) (p : P) (hSp : S p) (D : Nat) (hD : 1 ≤ D) (limit : Limit) (s : SearchState)
+theorem findBestMove_ok_ranked {S : Nat → P → Prop} (hc : Clamp c) (hr : Ranked G S)
+    (hinj : HashInj G (Ranked.U S)) (qfuel : Nat)
+    (hq : qf ≤ qfuel) (p : P) (D : Nat) (hSp : S D p) (hD : 1 ≤ D) (limit : Limit) (s : SearchState)
     (hV : ∀ d, 1 ≤ d → d ≤ D → ∃ v, Spec.V G qf d p = some v)
     (hRE : RootExact G c qf 1 D p)
-    (hT : TTSound G c S qf s.tt) (hrep : s.rep = [])
+    (hT : TTSound G c (Ranked.U S) qf s.tt) (hrep : s.rep = [])
     (hfin : (findBestMove G qfuel p D limit s).2.stopSeen = false)
     (hdh : (findBestMove G qfuel p D limit s).2.deeperHits = s.deeperHits) :
     ∃ b, (findBestMove G qfuel p D limit s).1 = some b ∧ IterOK G c qf D p b ∧
-      TTSound G c S qf (findBestMove G qfuel p D limit s).2.tt := by
+      TTSound G c (Ranked.U S) qf (findBestMove G qfuel p D limit s).2.tt := by
   rw [findBestMove_snd] at hfin hdh ⊢
-  obtain ⟨b, hb, hok, hT2, _⟩ := iterate_ok G hc hcl hinj qfuel hq p hSp D D 1 (NEGATIVE_INFINITY, none)
+  obtain ⟨b, hb, hok, hT2, _⟩ := iterate_ok_ranked G hc hr hinj qfuel hq p D hSp D 1 (NEGATIVE_INFINITY, none)
     (started limit s) (Nat.le_refl _) (by omega) hV hRE (fun h => by omega) hT hrep rfl hfin hdh
   have key : ∃ b, (findBestMove G qfuel p D limit s).1 = some b ∧ IterOK G c qf D p b := by
     rw [findBestMove_eq]
@@ -264,6 +301,21 @@ theorem findBestMove_ok (hc : Clamp c) (hcl : Closed G S) (hinj : HashInj G S) (
     · exact ⟨(sc, some mv), rfl, hok⟩
   obtain ⟨b', h1, h2⟩ := key
   exact ⟨b', h1, h2, hT2⟩
+
+theorem findBestMove_ok (hc : Clamp c) (hcl : Closed G S) (hinj : HashInj G S) (qfuel : Nat)
+    (hq : qf ≤ qfuel) (p : P) (hSp : S p) (D : Nat) (hD : 1 ≤ D) (limit : Limit) (s : SearchState)
+    (hV : ∀ d, 1 ≤ d → d ≤ D → ∃ v, Spec.V G qf d p = some v)
+    (hRE : RootExact G c qf 1 D p)
+    (hT : TTSound G c S qf s.tt) (hrep : s.rep = [])
+    (hfin : (findBestMove G qfuel p D limit s).2.stopSeen = false)
+    (hdh : (findBestMove G qfuel p D limit s).2.deeperHits = s.deeperHits) :
+    ∃ b, (findBestMove G qfuel p D limit s).1 = some b ∧ IterOK G c qf D p b ∧
+      TTSound G c S qf (findBestMove G qfuel p D limit s).2.tt := by
+  have h := findBestMove_ok_ranked G (S := fun _ => S) hc (Ranked.ofClosed hcl)
+    (by rw [Ranked.U_const]; exact hinj) qfuel hq p D hSp hD limit s hV hRE
+    (by rw [Ranked.U_const]; exact hT) hrep hfin hdh
+  rw [Ranked.U_const] at h
+  exact h
 
 end iterate
 end Flounder.Search
